@@ -5,6 +5,10 @@ OPEN lists the stated goals not yet proved; ASSUME the assumptions of the claim.
 
 THEOREMS = {
     "C01": {
+        "JP.Props.C01ensure": [
+            "JP.C01.applyOp_refines_all", "JP.C01.applyOps_refines_all", "JP.C01.apply_bytes_refines_all",
+            "JP.C01.c01_never_violated_all",
+        ],
         "JP.Props.C14": [
             "JP.C14.applyOps_refines_ensure", "JP.C14.apply_refines_ensure",
         ],
@@ -60,6 +64,9 @@ THEOREMS = {
         ],
     },
     "C05": {
+        "JP.Props.C01ensure": [
+            "JP.C01.c05_never_violated_all",
+        ],
         "JP.Props.C02bytes": [
             "JP.C02.mergePatch_bytes",
         ],
@@ -112,6 +119,9 @@ THEOREMS = {
         ],
     },
     "C08": {
+        "JP.Props.C01ensure": [
+            "JP.C01.c08_never_violated_all",
+        ],
         "JP.Props.C01limit": [
             "JP.C08.classified_lim", "JP.C01.c08_never_violated_lim",
         ],
@@ -154,6 +164,9 @@ THEOREMS = {
         ],
     },
     "C12": {
+        "JP.Props.C01ensure": [
+            "JP.C01.c12_never_violated_all",
+        ],
         "JP.Props.C17encode": [
             "JP.C17.deepCopy_rep",
         ],
@@ -181,6 +194,9 @@ THEOREMS = {
         ],
     },
     "C14": {
+        "JP.Props.C01ensure": [
+            "JP.C01.apply_bytes_refines_all", "JP.C01.c14_never_violated",
+        ],
         "JP.Props.C14": [
             "JP.C14.found_at_path", "JP.C14.found_at_path_resolve", "JP.C14.agrees_with_plain_add", "JP.C14.agrees_with_plain_add_op",
             "JP.C14.only_path_and_padding", "JP.C14.only_path_and_padding_arr", "JP.C14.frame", "JP.C14.frame_through_arrays",
@@ -189,6 +205,17 @@ THEOREMS = {
         ],
     },
     "C15": {
+        "JP.Props.C15escapes": [
+            "JP.C15.noNewEscapes_iff", "JP.C15.no_new_escapes_tree", "JP.C15.no_new_escapes",
+        ],
+        "JP.Props.C15tests": [
+            "JP.C15.tests_transparent_ops", "JP.C15.tests_transparent", "JP.C15.tests_transparent_indent",
+            "JP.C15.counterexample_dup",
+        ],
+        "JP.Props.C15ensure": [
+            "JP.C15.apply_output_tree_all", "JP.C15.apply_output_clean_all", "JP.C15.apply_output_parses_all",
+            "JP.C15.apply_output_valid_all",
+        ],
         "JP.Props.C17encode": [
             "JP.C17.marshal_node", "JP.C17.marshal_node_flags", "JP.C17.marshal_root",
         ],
@@ -210,6 +237,17 @@ THEOREMS = {
         ],
     },
     "C16": {
+        "JP.Props.C16entryCreate": [
+            "JP.C16.create_rejects_malformed", "JP.C16.create_ws", "JP.C16.create_accepts_ws",
+        ],
+        "JP.Props.C16entry": [
+            "JP.C16.parser_ws", "JP.C16.apply_rejects_malformed", "JP.C16.apply_empty_document",
+            "JP.C16.apply_ws", "JP.C16.apply_ws_nonarray", "JP.C16.apply_accepts_wellformed",
+            "JP.C16.decodePatch_rejects_malformed", "JP.C16.decodePatch_ws", "JP.C16.decodePatch_accepts_iff",
+            "JP.C16.mergePatch_rejects_malformed", "JP.C16.mergeMerge_rejects_malformed", "JP.C16.doMergePatch_ws_doc",
+            "JP.C16.doMergePatch_ws_patch", "JP.C16.mergePatch_accepts", "JP.C16.mergeMerge_accepts",
+            "JP.C16.equal_rejects_malformed", "JP.C16.equal_ws", "JP.C16.equal_accepts_ws",
+        ],
         "JP.Props.C11": [
             "JP.C11.decodePatch_iff",
         ],
@@ -281,15 +319,13 @@ THEOREMS = {
 }
 
 OPEN = {
-    "C01": ["byte-level closure with EnsurePathExistsOnAdd on (tree-level C14.applyOps_refines_ensure is proved; C01ensure in progress)",
-            "the byte-level theorem carries `result depth <= 10000` (needed: the reference parser has a nesting limit, Marshal has none)"],
+    "C01": ["the byte-level theorem carries `result depth <= 10000` (needed: the reference parser has a nesting limit, Marshal has none; counterexample in C01bytes.lean)"],
     "C03": [],
     "C04": ["the Go heap is modelled by values: sharing and cycles are not representable (see DESIGN D17)"],
     "C09": ["'no exported function writes to the byte slices or Patch it is given' is observed and supported by regenerated facts, not a theorem"],
     "C10": ["data-race freedom under the Go memory model: executed schedules only (race detector)"],
-    "C15": ["C15.tests_transparent (passing tests leave the bytes unchanged outside the known-finding trigger class)",
-            "C15.no_new_escapes (EscapeHTML off introduces no HTML-class escapes)"],
-    "C16": ["C16.entry_points as one collected theorem (its parts are proved in C06bytes, C02bytes, C03impl, C11, C15apply)"],
+    "C15": ["tests_transparent holds outside the known-finding trigger class and for duplicate-free names (C15.counterexample_dup shows duplicates break it: outside every property's domain)"],
+    "C16": ["Apply with leading CR before an ARRAY document: accepted, but pointers with an empty first token see the `isArray` quirk (C16.apply_ws needs CR-free white space for arrays; outside the RFC pointer domain)"],
     "C17": ["the reflective DECODER is described at value level (decodeDoc/childOf/anyOf); its literal model JP/Codec/Decode is in progress (the encoder is modelled literally in JP/Codec/Encode.lean and proved to print cstOf / marshalAnyE)",
             "struct tags, float formatting, Decoder/Encoder streams: differential testing only"],
     "C19": ["refinement of the legacy CreateMergePatch model to Spec.diff and byte-level closure of the legacy merge functions (in progress)"],
